@@ -20,7 +20,7 @@ THEOREMS = [
     "C04_key_order", "C04_keys_first_occurrence", "C04_null_error_bijection",
     "C04_failure_is_local_null", "C04_error_locality", "C04_history_invariant", "C04_history_tables",
     "C04_history",
-    "C04_collect_partial", "C04_exec_eq_spec_partial",
+    "C04_collect_partial", "C04_collect_fuel_adequate", "C04_exec_eq_spec_partial",
 ]
 AXIOMS_OK = []
 RUN_MODULE = "Run.C04run Exec.ExecModel"
